@@ -126,6 +126,34 @@ def run(ctx):
     table(ctx, R, 'AbstractChildLimitProvider::next', adds, do_add, lambda x: add_calendar(x[0], *x[1]), 'calendar addition with chained carries (second->minute->hour->day->month->year)',
           str, fn_site(p, 'AbstractChildLimitProvider::next'))
 
+    # ---- direction when the start of spring falls late (February 6-13, as in the first decades AD and in the far future) or early (late January, Julian era):
+    # the year pillar - hence the direction - changes at the Lichun INSTANT, wherever in the civil calendar it sits
+    def dir_shift(x):
+        shift, b, man = x
+        tm_ = typical_terms(years, shift=dict((i, shift) for i in range(24)), sec=sec)
+        cm = CalModel(I, tm_, months)
+        cl = I.call('ChildLimit::from_solar_time', [cm.solar_time(*b), gender(man)])
+        return (t.m(cl, 'is_forward'), t.name(t.m(t.m(cl, 'get_eight_char'), 'get_year')))
+
+    def dir_shift_orc(x):
+        shift, b, man = x
+        tm_ = typical_terms(years, shift=dict((i, shift) for i in range(24)), sec=sec)
+        n, s_ = CAL.jdn(*b[:3]), b[3] * 3600 + b[4] * 60 + b[5]
+        yp, _ = oracle_time(tm_, b[0], n, s_)
+        yang = G.STEM_YANG[yp[0]]
+        return ((yang and man) or ((not yang) and (not man)), yp)
+    ddom = []
+    for shift in (2, 3, 9, -12):
+        ln, ls = typical_terms(years, shift=dict((i, shift) for i in range(24)), sec=sec)[(Y, 3)]
+        for (dn, s_) in ((0, 5), (0, int(ls) - 1), (0, int(ls) + 1), (0, 86000), (-1, 43200), (1, 43200)):
+            if any(r['first'] <= ln + dn - 1 and ln + dn + 1 < r['first'] + r['count'] for r in months):
+                y_, m_, d_ = CAL.from_jdn(ln + dn)
+                for man in (True, False):
+                    ddom.append((shift, (y_, m_, d_, s_ // 3600, s_ // 60 % 60, s_ % 60), man))
+    table(ctx, R, 'ChildLimit:direction-at-shifted-Lichun', ddom, dir_shift, dir_shift_orc,
+          'the year pillar and the direction of luck follow the Lichun instant also when it falls on February 6-13 or in late January (births just before / after it on the Lichun day, the day before and after)',
+          str, fn_site(p, 'SixtyCycleHour::from_solar_time'))
+
     # ---- the same routine when the result falls in October 1582 (21 days labelled 1-4, 15-31)
     gap = [((1582, 9, 25, 12, 0, 0), (0, 0, 15, 0, 0, 0)), ((1582, 10, 20, 12, 0, 0), (0, 0, 3, 0, 0, 0)), ((1582, 10, 2, 12, 0, 0), (0, 0, 5, 0, 0, 0)), ((1581, 10, 20, 1, 0, 0), (1, 0, 0, 0, 0, 0))]
     table(ctx, R, 'DOM:AbstractChildLimitProvider::next:count-arith', gap, do_add, lambda x: add_calendar(x[0], *x[1]),
